@@ -14,10 +14,10 @@ var newSimGrpcClient func(w *World) fs_db.DB
 
 // seqProp is a property decided by sequential histories on the whole inline database.
 type seqProp struct {
-	id      string
-	rule    string
-	runs    [2]int // quick, thorough
-	gen     func(r *simrt.Rand, idx int, tier string) SeqCase
+	id   string
+	rule string
+	runs [2]int // quick, thorough
+	gen  func(r *simrt.Rand, idx int, tier string) SeqCase
 }
 
 func (p seqProp) ID() string    { return p.id }
@@ -33,10 +33,10 @@ func (p seqProp) Assumptions() []string {
 func (p seqProp) RealStub() map[string]string {
 	return map[string]string{
 		"pkg/inline, use cases (store, transaction, cleaner, dir, core), version lists, repositories": "real (sync/atomic/time/context/select rewritten to the simulator)",
-		"Badger":            "real, behind the simbadger seam (decision points, mutation counter, injectable update failure)",
-		"content files":     "real files on tmpfs behind the project's os seam (simos: decision points, capacity, ENOSPC)",
-		"worker pool, GC timer": "real code on the simulated clock",
-		"disk free space":   "simulated (simdisk)",
+		"Badger":                  "real, behind the simbadger seam (decision points, mutation counter, injectable update failure)",
+		"content files":           "real files on tmpfs behind the project's os seam (simos: decision points, capacity, ENOSPC)",
+		"worker pool, GC timer":   "real code on the simulated clock",
+		"disk free space":         "simulated (simdisk)",
 		"uuid / DI random source": "seeded from the run's PRNG",
 	}
 }
@@ -104,10 +104,20 @@ func (p seqProp) Shrink(x any) []any {
 
 func init() {
 	Register(seqProp{id: "C01",
-		rule: "cases: seeded sequential histories (10-40 steps) of Set/SetReader (5 reader shapes)/Create+Write*+Close/Get/GetReader/GetKeys/Delete over 2-5 keys (ASCII, multi-byte, long, with slash), contents 0..200 KiB incl. 2047-2049, 32767-32769, 65537; empty-key Set and never-written Get; collector (direct and timer), background windows and drains at boundaries; distinct = hash(ops, switch trace); non-trivial = some key is written at least twice (overwrite or delete/re-create)",
+		rule: "every 6th case runs on 2-3 nearly full simulated disks (writes are retried on another root or fail with ErrNoFreeSpace and are then not applied); cases: seeded sequential histories (10-40 steps) of Set/SetReader (5 reader shapes)/Create+Write*+Close/Get/GetReader/GetKeys/Delete over 2-5 keys (ASCII, multi-byte, long, with slash), contents 0..200 KiB incl. 2047-2049, 32767-32769, 65537; empty-key Set and never-written Get; collector (direct and timer), background windows and drains at boundaries; distinct = hash(ops, switch trace); non-trivial = some key is written at least twice (overwrite or delete/re-create)",
 		runs: [2]int{6000, 250000},
 		gen: func(r *simrt.Rand, idx int, tier string) SeqCase {
-			return genSeqCase(r, seqProfile{prop: "C01", steps: [2]int{10, 40}, keys: [2]int{2, 5}, ctlWeight: 12, emptyKey: true, big: true, readback: "auto", deleteHeavy: r.Intn(2) == 0})
+			c := genSeqCase(r, seqProfile{prop: "C01", steps: [2]int{10, 40}, keys: [2]int{2, 5}, ctlWeight: 12, emptyKey: true, big: true, readback: "auto", deleteHeavy: r.Intn(2) == 0})
+			if idx%6 == 5 {
+				// nearly full disks: writes are retried on other roots or fail with ErrNoFreeSpace
+				// (then they are not applied); whatever is reported successful must still read back exactly
+				c.World.Roots = nil
+				for i := 0; i < 2+r.Intn(2); i++ {
+					capacity := int64(20000 + r.Intn(150000))
+					c.World.Roots = append(c.World.Roots, RootSpec{Reported: capacity, Real: capacity, Partial: r.Intn(2) == 0})
+				}
+			}
+			return c
 		}})
 	Register(seqProp{id: "C02",
 		rule: "cases: one driver interleaves up to 6 open transactions (all four levels) and autocommit calls: Begin/Set/Delete/Get/GetKeys/Commit/Rollback, 2-4 keys, 15-60 steps, collector/timer/background windows at boundaries; every 5th case is a deep chain (1-2 keys, 150-1500 versions, snapshot transactions begun at many points, collector in between); after every data step every open transaction and the autocommit caller read every key and GetKeys; distinct = hash(ops, switch trace); non-trivial = at least two transactions and two writes",
